@@ -53,7 +53,13 @@ def run(eng: Engine, ck: Check):
             if isinstance(st, ast.Assign) and len(st.targets) == 1 and isinstance(st.targets[0], ast.Name) and isinstance(st.value, (ast.Attribute, ast.Name)):
                 nm = st.targets[0].id
                 ref = st.value.attr if isinstance(st.value, ast.Attribute) else st.value.id
-                target = next((c.methods[ref] for c in repo.mro(ci) if ref in c.methods), None)
+                target = None
+                if isinstance(st.value, ast.Attribute) and isinstance(st.value.value, ast.Name):
+                    oc = repo.find_cls(st.value.value.id, TSTATE)        # `queue = FailedState.queue`: the method of THAT class
+                    if oc is not None:
+                        target = next((c.methods[ref] for c in repo.mro(oc) if ref in c.methods), None)
+                if target is None:
+                    target = next((c.methods[ref] for c in repo.mro(ci) if ref in c.methods), None)
                 if target is None:
                     continue
                 alias_methods[(ci.name, nm)] = target
@@ -280,3 +286,23 @@ def run(eng: Engine, ck: Check):
             ok = ok and target in enum_members_in(r.exc)
         ck.ob('R-C03-MANAGER', f, f.node, f'{q} raises InvalidStateTransition(.., {target}) exactly when the state refused', ok,
               detail, construct=q)
+    defs.enum_members_distinct(eng, ck, 'R-C03-GRAPH', [('TransferState.State', TSTATE), ('TransferDirection', TMODEL)], 'every state class carries its own VALUE; guards compare against one state')
+
+    # ---- Transfer.transition: the change and its report happen in the caller's task, i.e. under the state lock
+    tr_ = eng.func(TMODEL, 'Transfer.transition')
+    ck.visited(tr_)
+    scope_ = eng.scope(tr_)
+    notif = [(f_, x) for f_ in scope_ for x in calls_in(f_.node) if call_name(x) == 'on_transfer_state_changed']
+    detached = [unparse(x)[:60] for f_ in scope_ for x in calls_in(f_.node) if call_name(x) in ('shield', 'create_task', 'ensure_future', 'run_coroutine_threadsafe', 'call_soon', 'call_later')]
+    direct = bool(notif) and all(isinstance(parent(x), ast.Await) for _, x in notif)
+    ck.ob('R-C03-LOCKED', tr_, tr_.node, 'Transfer.transition reports the change to every listener in the calling task (directly awaited, nothing detached): the state '
+          'operation that called it still holds the state lock until the last listener has been told', direct and not detached,
+          f'detached by {detached}' if detached else 'listener call is not awaited directly', construct='transition notifies under the lock')
+    st_store = [n for n in walk_local(tr_.node) if isinstance(n, ast.Assign) and any(unparse(t) == 'self.state' for t in n.targets)]
+    sp_ = [p_ for p_ in tr_.params if p_ != 'self'][0]
+    ok = len(st_store) == 1 and unparse(st_store[0].value) == sp_ and not eng.guards_at(tr_, st_store[0])
+    if ok and notif:
+        ct_ = eng.cfg(tr_)
+        ok = all(ct_.nodes_for(st_store[0])[0].id < n2.id for f_, x in notif if f_ is tr_ for n2 in ct_.nodes_for(x))
+    ck.ob('R-C03-LOCKED', tr_, tr_.node, 'Transfer.transition installs the new state object unconditionally before it reports', ok, '', construct='transition installs then reports')
+
